@@ -78,6 +78,10 @@ pub struct Cfg {
     /// receiver with object_receive_once = false
     #[serde(default)]
     pub receive_twice: bool,
+    /// receiver without a session time-out (flute's default): a silent session lives on, its stalled objects and
+    /// unfinished FDT instances are still released by the cleanups that follow the object time-out - however late
+    #[serde(default)]
+    pub no_sess_timeout: bool,
 }
 
 const E: usize = 100;
@@ -153,7 +157,7 @@ impl Rx {
     pub fn new(c: &Cfg) -> Rx {
         let cfg = flute::receiver::Config {
             max_objects_error: c.max_err,
-            session_timeout: Some(Duration::from_secs(SESS_TIMEOUT)),
+            session_timeout: if c.no_sess_timeout { None } else { Some(Duration::from_secs(SESS_TIMEOUT)) },
             object_timeout: Some(Duration::from_secs(OBJ_TIMEOUT)),
             object_max_cache_size: Some(c.cache),
             object_receive_once: !c.receive_twice,
@@ -305,7 +309,7 @@ pub fn run_seq(c: &Cfg, seq: &[Ev], repeat: usize) -> (Option<(String, String)>,
                     // time-out may still be in reception
                     // ... and only sessions that received a packet within the session time-out may still be allocated
                     let live_sessions = rx.last_sess_pkt.iter().flatten().filter(|t| rx.clock_s - **t <= SESS_TIMEOUT).count() as i64;
-                    if rx.open_sessions.get() > live_sessions {
+                    if !c.no_sess_timeout && rx.open_sessions.get() > live_sessions {
                         return (
                             Some(("C17/idle-session-survives-cleanup".into(), format!("after {:?} (repetition {}) {} session(s) are open (listener events) but only {} received a packet within the {} s session time-out; sequence {:?}", ev, rep, rx.open_sessions.get(), live_sessions, SESS_TIMEOUT, seq))),
                             peak,
@@ -355,7 +359,9 @@ pub fn run_seq(c: &Cfg, seq: &[Ev], repeat: usize) -> (Option<(String, String)>,
         if nobj != 0 {
             return (Some(("C17/objects-survive-timeout-and-cleanup".into(), format!("nb_objects() = {} after the object and session time-outs and cleanup; sequence {:?}", nobj, seq))), peak);
         }
-        if left > 4096 {
+        // (without a session time-out the sessions themselves stay allocated, each with its ten most recent complete FDT
+        // instances: a bounded baseline per session; growth with traffic is the pumping clause's business)
+        if left > 4096 + if c.no_sess_timeout { 96 * 1024 * rx.nb_sessions() as isize } else { 0 } {
             let what = if seq.iter().any(|e| matches!(e, Ev::FdtFrag(_))) { "unfinished-fdt-instances" } else { "other" };
             return (Some((format!("C17/memory-not-released-after-timeouts/{}", what), format!("{} bytes still held after the object and session time-outs and cleanup (baseline + 4 kB allowed); sequence {:?} x{}", left, seq, repeat))), peak);
         }
@@ -485,18 +491,19 @@ pub fn run(thorough: bool) -> i32 {
         let mut v = Vec::new();
         for cache in [3 * (E + 40), 64 * 1024] {
             for max_err in [0usize, 1, 2] {
-                v.push(Cfg { cache, max_err, no_exp_check: false, receive_twice: false });
+                v.push(Cfg { cache, max_err, no_exp_check: false, receive_twice: false, no_sess_timeout: false });
             }
         }
-        v.push(Cfg { cache: 3 * (E + 40), max_err: 1, no_exp_check: true, receive_twice: false });
-        v.push(Cfg { cache: 64 * 1024, max_err: 0, no_exp_check: true, receive_twice: false });
-        v.push(Cfg { cache: 3 * (E + 40), max_err: 1, no_exp_check: false, receive_twice: true });
-        v.push(Cfg { cache: 64 * 1024, max_err: 2, no_exp_check: true, receive_twice: true });
+        v.push(Cfg { cache: 3 * (E + 40), max_err: 1, no_exp_check: true, receive_twice: false, no_sess_timeout: false });
+        v.push(Cfg { cache: 64 * 1024, max_err: 0, no_exp_check: true, receive_twice: false, no_sess_timeout: false });
+        v.push(Cfg { cache: 3 * (E + 40), max_err: 1, no_exp_check: false, receive_twice: true, no_sess_timeout: false });
+        v.push(Cfg { cache: 64 * 1024, max_err: 2, no_exp_check: true, receive_twice: true, no_sess_timeout: false });
+        v.push(Cfg { cache: 3 * (E + 40), max_err: 1, no_exp_check: false, receive_twice: false, no_sess_timeout: true });
         v
     };
     // (A) all sequences to the depth bound: one work item per (configuration, length, first two events);
     // the remaining events are enumerated lazily inside the worker (16^6 histories do not fit a Vec)
-    let acfgs: Vec<usize> = if thorough { (0..cfgs.len()).collect() } else { vec![0, 4, 6, 8] };
+    let acfgs: Vec<usize> = if thorough { (0..cfgs.len()).collect() } else { vec![0, 4, 6, 8, 10] };
     let na = alphabet.len();
     let mut witems: Vec<(usize, usize, usize)> = Vec::new(); // (cfg, length, prefix code)
     for ci in &acfgs {
